@@ -313,8 +313,8 @@ Definition mk_const (s : snap) (b : bool) : option ref :=
 (** [var_edge] ([neg = false]) and [not_var_edge] ([neg = true]) *)
 Definition mk_var (s : snap) (v : nat) (neg : bool) : option (snap * ref) :=
   match nth_error (s_v2l s) v, term_of s true, term_of s false with
-  | Some lvl, Some tt, Some tf =>
-    let ch := if neg then [E (RT tf); E (RT tt)] else [E (RT tt); E (RT tf)] in
+  | Some lvl, Some t1, Some t0 =>
+    let ch := if neg then [E (RT t0); E (RT t1)] else [E (RT t1); E (RT t0)] in
     let '(s', e) := get_or_insert s lvl ch in
     Some (s', eref e)
   | _, _, _ => None
